@@ -8,10 +8,12 @@ def main():
     ok2, n2 = extract.extract_mt_sinks()
     ok3, n3 = extract.extract_hash_combine()
     ok4, n4 = extract.extract_positional_index()
+    ok5, n5 = extract.extract_usage_layout()
     print(n1)
     print(n2)
     print(n3)
     print(n4)
+    print(n5)
     return 0
 
 
